@@ -15,6 +15,8 @@
  *   idle      server socket with nobody connecting: accept reports EAGAIN, the descriptor stays quiet
  *   garbage2  (tls-based) as normal; then, in the same process, a second connection attempt to a peer that answers the
  *             ClientHello with garbage fails - the healthy connection must be unaffected by it
+ *   blocking  everything in blocking mode, the client in a forked process: xcm_accept, xcm_connect, xcm_send and
+ *             xcm_receive must return once their event has happened (a watchdog reports a call that does not)
  *   ctlflood  as normal, with the control interface enabled and a control client that sends requests to the
  *             connecting side's control socket and never reads the replies, while the applications keep calling
  *
@@ -31,6 +33,8 @@
 #include <netinet/tcp.h>
 #include <poll.h>
 #include <signal.h>
+#include <setjmp.h>
+#include <sys/wait.h>
 #include <stdbool.h>
 #include <stdio.h>
 #include <stdlib.h>
@@ -332,8 +336,120 @@ static int make_filler(int port)
     return connect(filler, (struct sockaddr *)&sin, sizeof(sin));
 }
 
+/* ---- blocking-mode scenario ---------------------------------------------------------------------- */
+static sigjmp_buf blk_jmp;
+static volatile sig_atomic_t blk_armed;
+static void on_blk_alarm(int sig)
+{
+    (void)sig;
+    if (blk_armed)
+	siglongjmp(blk_jmp, 1);
+    crash_line("hang");
+    _exit(3);
+}
+
+static void run_blocking(void)
+{
+    static long bseq;
+    char addr[256], saddr[300];
+    bseq++;
+    stepno = 0;
+    shim_reset();
+    setenv("XCM_CTL", "/nonexistent-verif", 1);
+    const char *proto = strcmp(tp, "utlst") == 0 ? "tls" : tp;
+    if (strcmp(tp, "ux") == 0)
+	snprintf(addr, sizeof(addr), "ux:verif-blk-%d-%ld", getpid(), bseq);
+    else if (strcmp(tp, "uxf") == 0) {
+	const char *d = getenv("VERIF_RUN_DIR");
+	snprintf(addr, sizeof(addr), "uxf:%s/b%d-%ld", d ? d : ".", getpid(), bseq);
+    } else
+	snprintf(addr, sizeof(addr), "%s:127.0.0.1:0", proto);
+    struct xcm_attr_map *a = xcm_attr_map_create();
+    if (tp[0] == 'b')
+	xcm_attr_map_add_str(a, "xcm.service", "bytestream");
+    struct xcm_socket *srv = xcm_server_a(addr, a);
+    fprintf(out, "{\"x\":%ld,\"n\":0,\"op\":\"X\",\"e\":0,\"tp\":\"%s\",\"scen\":\"%s\",\"up\":%d}\n", xid, tp, scen, srv ? 1 : 0);
+    if (!srv) {
+	xcm_attr_map_destroy(a);
+	return;
+    }
+    snprintf(saddr, sizeof(saddr), "%s", xcm_local_addr(srv));
+    if (strcmp(tp, "utlst") == 0) {
+	char tmp[300];
+	snprintf(tmp, sizeof(tmp), "utls:%s", strchr(saddr, ':') + 1);
+	strcpy(saddr, tmp);
+    }
+    fflush(out);
+    pid_t child = fork();
+    if (child == 0) {
+	/* the client: blocking connect, send, receive, close */
+	alarm(20);
+	usleep(100000 + (useconds_t)(rnd() % 100000));
+	struct xcm_socket *c = xcm_connect_a(saddr, a);
+	if (!c)
+	    _exit(11);
+	unsigned char b[8] = { 1, 1, 0x5a, 4, 0, 0, 0, 0 };
+	int rc = xcm_send(c, b, 4);
+	if (!(tp[0] == 'b' ? rc == 4 : rc == 0))
+	    _exit(12);
+	unsigned char r[64];
+	rc = xcm_receive(c, r, tp[0] == 'b' ? 4 : sizeof(r));
+	if (rc != 4 || r[2] != 0x5a)
+	    _exit(13);
+	xcm_close(c);
+	_exit(0);
+    }
+    int phase = 0, rets[4] = { -3, -3, -3, -3 }, errs[4] = { 0, 0, 0, 0 };
+    struct xcm_socket *acc = NULL;
+    struct sigaction sa = { 0 }, old;
+    sa.sa_handler = on_blk_alarm;
+    sigaction(SIGALRM, &sa, &old);
+    if (sigsetjmp(blk_jmp, 1) == 0) {
+	blk_armed = 1;
+	alarm(10);
+	unsigned char r[64], b[8] = { 1, 2, 0x5a, 4, 0, 0, 0, 0 };
+	phase = 0;
+	acc = xcm_accept_a(srv, a);		/* blocks until the client is there (and the handshake is done) */
+	rets[0] = acc ? 0 : -1; errs[0] = acc ? 0 : errno;
+	if (acc) {
+	    phase = 1;
+	    int rc = xcm_receive(acc, r, tp[0] == 'b' ? 4 : sizeof(r));	/* blocks until the message is there */
+	    rets[1] = rc; errs[1] = rc < 0 ? errno : 0;
+	    phase = 2;
+	    rc = xcm_send(acc, b, 4);
+	    rets[2] = rc; errs[2] = rc < 0 ? errno : 0;
+	    phase = 3;
+	    rc = xcm_receive(acc, r, sizeof(r));			/* blocks until the client has closed: 0 */
+	    rets[3] = rc; errs[3] = rc < 0 ? errno : 0;
+	}
+	phase = 4;
+    } else
+	rets[phase < 4 ? phase : 3] = -2;	/* the watchdog fired inside this call */
+    alarm(0);
+    blk_armed = 0;
+    sigaction(SIGALRM, &old, NULL);
+    xcm_attr_map_destroy(a);
+    int status = 0, cexit = -1;
+    if (phase < 4)
+	kill(child, SIGKILL);
+    if (waitpid(child, &status, 0) == child)
+	cexit = WIFEXITED(status) ? WEXITSTATUS(status) : 100 + WTERMSIG(status);
+    stepno++;
+    fprintf(out, "{\"x\":%ld,\"n\":%ld,\"op\":\"bq\",\"e\":0,\"rets\":[%d,%d,%d,%d],\"errs\":[%d,%d,%d,%d],\"phase\":%d,\"cexit\":%d}\n",
+	    xid, stepno, rets[0], rets[1], rets[2], rets[3], errs[0], errs[1], errs[2], errs[3], phase, cexit);
+    if (phase == 4) {		/* (after a watchdog hit the sockets are left alone: the library was interrupted mid-call) */
+	if (acc)
+	    xcm_close(acc);
+	xcm_close(srv);
+    }
+}
+
 static void run(void)
 {
+    if (strcmp(scen, "blocking") == 0) {
+	run_blocking();
+	return;
+    }
     char addr[256] = "", saddr[300] = "";
     static long seq;
     seq++;
